@@ -230,7 +230,7 @@ def choose(rng, w):
         return {"op": op, "dst": dst, "src": rng.choice(vecs), "form": rng.choice(["list0", "vec0", "rlist0", "tuple0", "vec0l", "list1", "mask0", "sort", "fillna0", "fillnaNone", "dropna",
                                                                                 "cast", "toobj", "pos", "idxall", "head", "tail", "unique", "fillna0", "dropna"])}
     if op == "write":
-        return {"op": op, "r": rng.choice(vecs), "promote": rng.random() < 0.2, "form": rng.choice(["int", "int", "slice", "mask"])}
+        return {"op": op, "r": rng.choice(vecs), "promote": rng.random() < 0.2, "form": rng.choice(["int", "int", "slice", "mask", "selfval", "selfrev", "selfkey"])}
     if op == "tabfrom":
         return {"op": op, "dst": dst, "srcs": [rng.choice(vecs) for _ in range(rng.randint(1, 2))], "form": rng.choice(["list", "dict"])}
     if op == "stack":
@@ -294,6 +294,14 @@ def do_write(o, st):
         o[0] = val
     elif f == "slice":
         o[0:1] = [val]
+    elif f == "selfval":
+        o[:] = o                      # the written vector is itself the value ...
+    elif f == "selfrev":
+        o[::-1] = o
+    elif f == "selfkey" and k is bool:
+        o[o] = False                  # ... or the key (a boolean vector masking itself)
+    elif f == "selfkey" and k is int and all(isinstance(x, int) and 0 <= x < n for x in o):
+        o[o] = list(o)                # an int vector indexing itself
     else:
         o[[True] + [False] * (n - 1)] = val
 
